@@ -1082,6 +1082,36 @@ impl Transaction {
                 return false;
             }
 
+            //
+            // a staking transaction moves the staker's own funds: it must be
+            // signed by the owner of its inputs and cannot create value
+            //
+            if let Some(first_input) = self.from.first() {
+                let signer: SaitoPublicKey = first_input.public_key;
+                let Some(hash_for_signature) = &self.hash_for_signature else {
+                    error!("ERROR 757294: there is no hash for signature in a staking transaction");
+                    return false;
+                };
+                if !verify_signature(hash_for_signature, &self.signature, &signer) {
+                    error!("staking transaction signature does not verify");
+                    return false;
+                }
+                if self
+                    .from
+                    .iter()
+                    .any(|slip| slip.amount > 0 && slip.public_key != signer)
+                {
+                    error!("staking transaction spends inputs that do not belong to its signer");
+                    return false;
+                }
+            }
+            let total_in: u128 = self.from.iter().map(|slip| slip.amount as u128).sum();
+            let total_out: u128 = self.to.iter().map(|slip| slip.amount as u128).sum();
+            if total_out > total_in {
+                error!("staking transaction spends more than it has available");
+                return false;
+            }
+
             return true;
         }
 
